@@ -4,7 +4,7 @@
 # 2. applies it to /repo, runs the property's check, reverts. Results -> /verif/seeded/<PROP>-<VARIANT>/result.txt
 set -u
 # /repo's working tree is shared with every other check run: serialise on a lock
-if [ -z "${REPO_LOCK_HELD:-}" ]; then exec env REPO_LOCK_HELD=1 flock /var/tmp/repo.lock "$0" "$@"; fi
+if [ -z "${REPO_LOCK_HELD:-}" ]; then exec env REPO_LOCK_HELD=1 /verif/tools/withrepo.sh exclusive "$0" "$@"; fi
 export PATH=/opt/veriftools/go1.26/bin:$PATH GOFLAGS=-mod=mod GOPROXY=off GOSUMDB=off GOTOOLCHAIN=local
 P=$1; X=$2; TIER=${3:-quick}
 SRC=/tmp/seed-$P-out/$X
